@@ -16,7 +16,7 @@ EXPECTED_PROGS = {"sr": "SetRemoteSendChan RegisterShard", "sc": "close Unregist
 def scenarios(rng, tier):
     """(name, init, threads, mode, max) - all with successive incarnations: incarnation n+1 starts registering once n has
     registered (INIT or w:), cleanups and replays anywhere."""
-    big = 400000 if tier == "thorough" else 6000
+    big = 300000 if tier == "thorough" else 6000
     S = [
         ("two_senders", ["sr0", "rr0"], [["sc0"], ["sr1"], ["rp0"]], "exhaustive", 200000),
         ("two_receivers", ["sr0", "rr0"], [["rc0"], ["rr1"]], "exhaustive", 200000),
@@ -50,7 +50,7 @@ def scenarios(rng, tier):
         if side == "s":
             for r in range(rng.below(3)):
                 threads.append(["rp%d" % r])
-        S.append(("random%d" % k, init, threads, "random", 1500 if tier == "quick" else 20000))
+        S.append(("random%d" % k, init, threads, "random", 1500 if tier == "quick" else 5000))
     return S
 
 
@@ -114,7 +114,7 @@ def run_explorer(lines, tag, rep):
 
 
 def run_model(exe, lines):
-    rc, out = V.run([exe], input="\n".join(lines) + "\n", timeout=900)
+    rc, out = V.run(["sh", "-c", "ulimit -s unlimited 2>/dev/null; exec \"$0\"", exe], input="\n".join(lines) + "\n", timeout=1800)
     if rc != 0:
         return "model driver failed: " + out[-1500:], None, None
     progs = {l.split()[1]: " ".join(l.split()[2:]) for l in out.split("\n") if l.startswith("MODELPROG")}
